@@ -13,6 +13,7 @@ import c_angle
 import c_rot
 import c_conv
 import c_xform
+import c_proj
 import re
 import sym
 
@@ -259,6 +260,23 @@ def unit_C08(src, k):
     return u
 
 
+def unit_C10(src, angle_kind='Rad'):
+    u = Unit('C10' + ('' if angle_kind == 'Rad' else 'deg'), src, 'R')
+    lib, F = full_base(u, angle_kind)
+    c_proj.build(lib, F)
+    u.spec_texts.append(lib.text())
+    u.spec_texts.append(c_proj.text_specs())
+    u.to_rad = (lambda x: x) if angle_kind == 'Rad' else (lambda x: 'deg_to_rad(%s)' % x)
+    u.contract_fns.insert(0, c_proj.contracts)
+    c_proj.select(u)
+    own = lambda im, f: f.module == 'projection'
+    u.assume_pred = lambda im, f: not own(im, f)
+    if angle_kind == 'Rad':
+        u.lemma_texts.append(sym.HELPER_LEMMAS)
+        add_laws(u, c_proj.laws(F))
+    return u
+
+
 def trait_name_of(im):
     from emit import trait_name
     return trait_name(im.trait)
@@ -276,7 +294,7 @@ def build_C03(src, tier):
     return [unit_C03(src, 'R')]
 
 
-UNITS = {'C08': lambda src, tier: [unit_C08(src, 'q'), unit_C08(src, 'b3'), unit_C08(src, 'b2')], 'C05': lambda src, tier: [unit_conv(src, 'C05', 'Rad')], 'C07': lambda src, tier: [unit_conv(src, 'C07', 'Rad'), unit_conv(src, 'C07', 'Deg')], 'C06': lambda src, tier: [unit_C06(src, 'Rad'), unit_C06(src, 'Deg')], 'C13': lambda src, tier: [unit_C13(src, 'R')], 'C04': lambda src, tier: [unit_C04(src, 'R')], 'C02': lambda src, tier: [unit_C02(src, 'R'), unit_C02t(src)], 'C01': lambda src, tier: [unit_C01(src, 'R'), unit_C01t(src, 'R')], 'C03': build_C03, 'C12': lambda src, tier: [unit_C12(src, 'R')]}
+UNITS = {'C10': lambda src, tier: [unit_C10(src, 'Rad'), unit_C10(src, 'Deg')], 'C08': lambda src, tier: [unit_C08(src, 'q'), unit_C08(src, 'b3'), unit_C08(src, 'b2')], 'C05': lambda src, tier: [unit_conv(src, 'C05', 'Rad')], 'C07': lambda src, tier: [unit_conv(src, 'C07', 'Rad'), unit_conv(src, 'C07', 'Deg')], 'C06': lambda src, tier: [unit_C06(src, 'Rad'), unit_C06(src, 'Deg')], 'C13': lambda src, tier: [unit_C13(src, 'R')], 'C04': lambda src, tier: [unit_C04(src, 'R')], 'C02': lambda src, tier: [unit_C02(src, 'R'), unit_C02t(src)], 'C01': lambda src, tier: [unit_C01(src, 'R'), unit_C01t(src, 'R')], 'C03': build_C03, 'C12': lambda src, tier: [unit_C12(src, 'R')]}
 KANI = {}
 META = {
     'C03': dict(min_obligations=350, trust=['A1', 'A2', 'A6'],
